@@ -14,6 +14,7 @@ from tranpsim.proc import sim_process
 from tranpsim.session import fresh_task, session_task
 
 KF_UNLOAD = 'C04/unload-of-imported-module-breaks-cached-importers'
+KF_NESTED = 'C04/nested-import-resolved-through-session-state'
 
 _ORACLE_MEMO: dict[str, dict[str, Any]] = {}
 
@@ -28,6 +29,8 @@ def main_texts(pool: dict[str, Any], rng: random.Random) -> list[str]:
 	texts.append('def lone2(k: int) -> float:\n\tf = 1.5\n\treturn f')
 	texts.append('def bad(k: int) -> int:\n\treturn undefined_name + k')
 	texts.append('def broken(k: int) -> int:\n\treturn (k +')
+	m = pool['modules'][-1]
+	texts.append(f'def nested_{pools.tag_of(m)}(k: int) -> int:\n\tfrom {m} import make_{pools.tag_of(m)}\n\tv = make_{pools.tag_of(m)}()\n\tw = v.value\n\treturn k')
 	m = pool['modules'][0]
 	texts.append(f'from {m} import make_{pools.tag_of(m)}\ndef err(k: int) -> int:\n\tv = make_{pools.tag_of(m)}()\n\treturn v.no_such_field')
 	return texts
@@ -47,6 +50,18 @@ def importers_of(imports: dict[str, list[str]], x: str) -> set[str]:
 			if m not in out and (x in ds or out & set(ds)):
 				out.add(m)
 				changed = True
+	return out
+
+
+def nested_imports(text: str, state: dict[str, int]) -> list[str]:
+	"""Pool modules imported by an import statement that is not at the top level of the text."""
+	out = []
+	for line in text.split('\n'):
+		stripped = line.lstrip()
+		if stripped != line and stripped.startswith('from ') and ' import ' in stripped:
+			m = stripped.split()[1]
+			if m in state:
+				out.append(m)
 	return out
 
 
@@ -193,6 +208,9 @@ class C04Runner:
 				if count and importers_of(imports, op['m']) & model.loaded:
 					self.bump('probes', 'unload of a module that loaded modules import')
 				model.unload(op['m'])
+			nested = kind == 'submit' and bool(set(nested_imports(op.get('text', ''), self.state)) & model.loaded)
+			if nested and count:
+				self.bump('probes', 'submission with an import below the top level of a module loaded earlier in the session')
 			broken = False
 			if kind in ('submit', 'runner'):
 				# targets are served one after the other: the first one that reaches a hole fails the request
@@ -223,7 +241,7 @@ class C04Runner:
 				break
 			want = self.oracle(proj, init, {**op, 'order': sorted(set(op['order']))} if kind == 'runner' else op)
 			if r['status'] != want['status']:
-				out.append({'k': k, 'class': 'session-fails-fresh-succeeds' if want['status'] == 'ok' else 'session-succeeds-fresh-fails', 'broken': broken,
+				out.append({'k': k, 'class': 'session-fails-fresh-succeeds' if want['status'] == 'ok' else 'session-succeeds-fresh-fails', 'broken': broken, 'nested': nested,
 					'detail': {'op': {kk: vv for kk, vv in op.items() if kk != 'text'}, 'session': r.get('error', {}).get('cls'), 'site': r.get('error', {}).get('site'), 'fresh': want.get('error', {}).get('cls')}})
 			elif r['status'] == 'error':
 				if r['error']['cls'] != want['error']['cls']:
@@ -259,13 +277,24 @@ class C04Runner:
 		return out
 
 	def cascade(self, ops: list[dict[str, Any]]) -> list[dict[str, Any]]:
-		"""Compensated mode: before unloading a module, unload every pool module that imports it (exactly what the finding says is missing)."""
+		"""Compensated mode for KF_UNLOAD: before unloading a module, unload every pool module that imports it (exactly what the finding says is missing)."""
 		imports = import_map(self.pool, self.state)
 		out: list[dict[str, Any]] = []
 		for op in ops:
 			if op['op'] == 'unload':
 				for d in sorted(importers_of(imports, op['m'])):
 					out.append({'op': 'unload', 'm': d, 'comp': True})
+			out.append(op)
+		return out
+
+	def forget_nested(self, ops: list[dict[str, Any]]) -> list[dict[str, Any]]:
+		"""Compensated mode for KF_NESTED: before a submission, unload the modules it imports below the top level
+		(so that nothing loaded earlier in the session can satisfy that import)."""
+		out: list[dict[str, Any]] = []
+		for op in ops:
+			if op['op'] == 'submit':
+				for m in sorted(set(nested_imports(op.get('text', ''), self.state))):
+					out.append({'op': 'unload', 'm': m, 'comp': True})
 			out.append(op)
 		return out
 
@@ -278,14 +307,19 @@ class C04Runner:
 			results = self.run_session(proj, init, self.ops)
 			mm = self.mismatches(self.ops, results, orc, oinit, count=True)
 			if mm:
-				known = None
-				if KF_UNLOAD in self.known_ids and any(m['broken'] for m in mm):
-					cops = self.cascade(self.ops)
-					cres = self.run_session(proj, init, cops)
-					if not self.mismatches(cops, cres, orc, oinit, count=False):
-						known = KF_UNLOAD
+				known_for_flag: dict[str, str] = {}
+				flags = {'broken': (KF_UNLOAD, self.cascade), 'nested': (KF_NESTED, self.forget_nested)}
+				for flag, (kid, transform) in flags.items():
+					if kid in self.known_ids and any(m.get(flag) for m in mm):
+						cops = transform(self.ops)
+						cres = self.run_session(proj, init, cops)
+						left = self.mismatches(cops, cres, orc, oinit, count=False)
+						# the compensated session must be free of the mismatches this finding explains (others are judged on their own)
+						if not [x for x in left if x.get(flag) or x['class'] in {m['class'] for m in mm if m.get(flag)}]:
+							known_for_flag[flag] = kid
 				for m in mm:
-					self.violations.append({'class': m['class'], 'op_index': m['k'], 'detail': m['detail'], 'known': known if m['broken'] else None, 'sig': m['class']})
+					known = next((known_for_flag[f] for f in ('broken', 'nested') if m.get(f) and f in known_for_flag), None)
+					self.violations.append({'class': m['class'], 'op_index': m['k'], 'detail': m['detail'], 'known': known, 'sig': m['class']})
 			log = [[r.get('status'), (r.get('error') or {}).get('cls'), digest(r.get('text') or r.get('files') or '')] for r in results]
 			return {'violations': self.violations, 'counters': self.counters, 'distinct': sorted(self.distinct), 'states': sorted(self.states), 'log': digest(log), 'processes': self.processes + proj.processes + orc.processes, 'sim_time_s': 0.0}
 		finally:
@@ -351,6 +385,7 @@ class C04(Engine):
 			cases.append({'pool': pool, 'flavour': 'interactive', 'cache': None, 'ops': [S(texts[0]), S(texts[0]), S(texts[1]), T(leaf), S(texts[0])]})
 			cases.append({'pool': pool, 'flavour': 'interactive', 'cache': False, 'ops': [S(texts[-3]), S(texts[0]), S(texts[-1]), S(texts[0]), S(texts[-5])]})
 			cases.append({'pool': pool, 'flavour': 'interactive', 'cache': None, 'ops': [S(texts[-4]), S(texts[-5]), S(texts[2]), S(texts[-5])]})
+			cases.append({'pool': pool, 'flavour': 'interactive', 'cache': 'lib', 'ops': [S(texts[-2]), S(texts[len(mods) - 1]), S(texts[-2]), S(texts[0])]})
 		return cases
 
 	def generate(self, rng: random.Random, index: int) -> dict[str, Any]:
